@@ -5,6 +5,7 @@ import (
 	"encoding/json"
 	"errors"
 	"fmt"
+	repodir "github.com/notaryproject/notation-go/dir"
 	"math/rand/v2"
 	"os"
 	"path/filepath"
@@ -144,6 +145,11 @@ func (c17) Gen(r *rand.Rand, tier string, idx int) *core.Plan {
 		w["out"] = int64(len(c17Outs) - 1)
 		w["padSpace"], w["sigpipe"], w["exit"] = 1, 1, 0
 	}
+	// the plugin object comes from a long-lived CLIManager (Get), as a verifier's or signer's does; and, after the
+	// executable was replaced, the call under study is the host's SECOND identical attempt (drawn last: the other
+	// knobs are what they were)
+	w["managed"] = int64(r.IntN(3) / 2)
+	w["rehearsal"] = int64(r.IntN(2))
 	if idx%41 == 7 {
 		// a well-behaved plugin (succeeding, or failing with a structured error) next to a neighbour call, densely
 		// interleaved: the plainest setting in which one call could see another one's bytes
@@ -497,7 +503,27 @@ func (l c17) Exec(env *core.Env) *core.Result {
 	}
 	preN := 0
 	host := sim.Go("host", func() {
-		pl, err := plugin.NewCLIPlugin(ctx, c17Name, exe)
+		var pl pf.Plugin
+		var err error
+		if w["managed"] == 1 {
+			pl, err = plugin.NewCLIManager(repodir.NewSysFS(filepath.Join(env.Dir, "plugins"))).Get(ctx, c17Name)
+			res.Probe("plugin_object_obtained_from_a_manager")
+		} else {
+			pl, err = plugin.NewCLIPlugin(ctx, c17Name, exe)
+		}
+		callOnce := func(cctx context.Context) (any, error) {
+			switch cmdName {
+			case "get-plugin-metadata":
+				return pl.GetMetadata(cctx, &pf.GetMetadataRequest{})
+			case "describe-key":
+				return pl.DescribeKey(cctx, &pf.DescribeKeyRequest{KeyID: "key-1"})
+			case "generate-signature":
+				return pl.GenerateSignature(cctx, &pf.GenerateSignatureRequest{KeyID: "key-1", KeySpec: pf.KeySpecEC256, Hash: pf.HashAlgorithmSHA256, Payload: []byte("payload")})
+			case "generate-envelope":
+				return pl.GenerateEnvelope(cctx, &pf.GenerateEnvelopeRequest{KeyID: "key-1", PayloadType: "application/vnd.cncf.notary.payload.v1+json", SignatureEnvelopeType: "application/jose+json", Payload: []byte("payload")})
+			}
+			return pl.VerifySignature(cctx, &pf.VerifySignatureRequest{})
+		}
 		if err == nil && w["prelude"] == 1 {
 			// the plugin object is long-lived: it has already served the same command once, while an honest
 			// build of the plugin was installed; then the executable was replaced by the one under study
@@ -521,6 +547,15 @@ func (l c17) Exec(env *core.Env) *core.Result {
 				res.Probe("honest_plugin_refused_in_prelude")
 			}
 			os.WriteFile(exe, simexec.MakeExecutable("script", simexec.Script{"*": steps}), 0755)
+			if w["rehearsal"] == 1 && timing == 0 {
+				// the host has already tried once with the new build (a process that ends promptly, no deadline);
+				// the call under study is its identical second attempt
+				if _, rerr := callOnce(context.Background()); rerr != nil {
+					res.Probe("first_attempt_after_the_replacement_failed")
+				} else {
+					res.Probe("first_attempt_after_the_replacement_succeeded")
+				}
+			}
 			preN = len(simexec.Log)
 			res.Probe("plugin_object_reused_after_the_executable_was_replaced")
 		}
